@@ -227,6 +227,10 @@ def unary_on_abstract(ex, op, v, node):
 
 def compare(ex, op, a, b, node):
     if isinstance(op, (ast.Is, ast.IsNot)):
+        # an opaque fact that stands for "Match object or None" (regex match atoms): `m is None` <=> not fact
+        for x, y in ((a, b), (b, a)):
+            if y is None and isinstance(x, SymVal) and x.sort == 'bool' and getattr(x, 'optional_obj', False):
+                return SymVal('bool', z3.Not(x.t)) if isinstance(op, ast.Is) else SymVal('bool', x.t)
         r = identical(ex, a, b)
         return r if isinstance(op, ast.Is) else (not r)
     if isinstance(op, (ast.In, ast.NotIn)):
@@ -822,11 +826,15 @@ def call_external(ex, f, args, kwargs, node):
         import re as _re
         rx = getattr(f, '__self__', None)
         if isinstance(rx, _re.Pattern) and getattr(f, '__name__', '') in ('fullmatch', 'match') and len(args) == 1 and isinstance(args[0], SymVal) and not kwargs:
-            return ex.new_atom(('regex', rx.pattern, rx.flags, f.__name__), args[0])
+            _a = ex.new_atom(('regex', rx.pattern, rx.flags, f.__name__), args[0])
+            _a.optional_obj = True          # stands for `Match | None`
+            return _a
         if f in (_re.fullmatch, _re.match) and len(args) >= 2 and isinstance(args[0], str) and isinstance(args[1], SymVal):
             fl = args[2] if len(args) > 2 else kwargs.get('flags', 0)
             if isinstance(fl, int):
-                return ex.new_atom(('regex', args[0], int(fl), f.__name__), args[1])
+                _a = ex.new_atom(('regex', args[0], int(fl), f.__name__), args[1])
+                _a.optional_obj = True
+                return _a
     if type(f).__name__ == 'method_descriptor' and getattr(f, '__objclass__', None) in (str, list, dict) and args:
         # unbound builtin method, e.g. map(str.lower, parts)
         recv = args[0]
@@ -944,7 +952,9 @@ def call_external(ex, f, args, kwargs, node):
     if f is map:
         fn = args[0]
         if len(args) == 2 and isinstance(args[1], SymSeq):
-            raise Unsupported('map over symbolic sequence')
+            # map(f, xs) == [f(x) for x in xs]  (consumed eagerly, like every generator in this engine)
+            from . import loops
+            return loops.summarise_map(ex, fn, args[1], node)
         cols = [ex.iterate_concrete(a, node) for a in args[1:]]
         return [ex.call(fn, list(xs), {}, node) for xs in zip(*cols)]
     if f is sorted:
